@@ -5,7 +5,7 @@
 set -u
 export GOFLAGS=-mod=mod GOPROXY=off GOSUMDB=off GOTOOLCHAIN=local
 id=$1; k=$2; shift 2; extra="$*"
-OUTDIR=${OUTDIR:-out}; TAG=${TAG:-}; W=/tmp/mut/w-$id; O=$W/$OUTDIR/$k; V=/verif; S=$V/seeded/$id-$TAG$k
+OUTDIR=${OUTDIR:-out}; TAG=${TAG:-}; W=${WBASE:-/tmp/mut/w}-$id; O=$W/$OUTDIR/$k; V=/verif; S=$V/seeded/$id-$TAG$k
 [ -f $O/patch.diff ] || { echo "no patch $O"; exit 2; }
 cd $W && git checkout -q -- . && git clean -fdq -e out -e out2 -e out3
 demo=$(ls $O/*_test.go | head -1)
